@@ -7,7 +7,7 @@ package vh
 //	int   M in "", int8..int64, uint..uint64, float32, float64, named
 //	str   M in "", named, bytes, stringer
 //	list  M in "", []int, []string, []float64, [3]int, []map, named[]iface, named[]string, named[]int
-//	hash  M in "", map[string]int, map[string]string, map[int]string, map[int64]string, map[uint64]string, map[iface], struct, ptrstruct, nilptrstruct, nilptrmap, outer, meth, ptrmeth, namedmap
+//	hash  M in "", map[string]int, map[string]string, map[int]string, map[int64]string, map[uint64]string, map[iface], map[mixed], struct, ptrstruct, nilptrstruct, nilptrmap, outer, meth, ptrmeth, namedmap
 //	ptr   pointer to A[0]      time  I = unix seconds (UTC)
 
 import (
@@ -222,6 +222,26 @@ func zooGo(e *E, variant int) interface{} {
 			out := zDict{}
 			for _, i := range idx {
 				out[e.Ks[i]] = zooGo(e.A[i], variant)
+			}
+			return out
+		case "map[mixed]":
+			// interface-keyed map whose keys are of different kinds (int, string, float, bool, uint8)
+			out := map[interface{}]interface{}{}
+			for _, i := range idx {
+				var k interface{}
+				switch i % 5 {
+				case 0:
+					k = i + 1
+				case 1:
+					k = e.Ks[i]
+				case 2:
+					k = float64(i) + 0.5
+				case 3:
+					k = i%2 == 1
+				default:
+					k = uint8(i)
+				}
+				out[k] = zooGo(e.A[i], variant)
 			}
 			return out
 		case "map[iface]":
